@@ -68,7 +68,7 @@ type RunResult struct {
 	RunIndex   int            `json:"run_index"`
 	RunSeed    uint64         `json:"run_seed"`
 	TapeLen    int            `json:"tape_len"`
-	Tape       []uint32       `json:"tape,omitempty"`
+	Tape       TapeData       `json:"tape,omitempty"`
 	LogHash    string         `json:"log_hash"`
 	Violations []Violation    `json:"violations,omitempty"`
 	Probes     map[string]int `json:"probes,omitempty"`
@@ -105,6 +105,7 @@ func runOnce(t *testing.T, sc *Scenario, tape *Tape, keepLog bool) (res RunResul
 		tape.Trace = keepLog
 		w.Start = time.Now()
 		w.S = simrt.New()
+		tape.Phase = "build"
 		defer func() {
 			// whatever happens, leave no parked goroutine behind
 			rec := recover()
@@ -129,6 +130,7 @@ func runOnce(t *testing.T, sc *Scenario, tape *Tape, keepLog bool) (res RunResul
 		spine.VerifResetEvents()
 		w.initStrategy()
 		sc.Build(w)
+		tape.Phase = "sched"
 		w.S.Quiesce()
 		w.RunMain()
 		w.Drain()
@@ -149,8 +151,8 @@ func stackNow() string {
 }
 
 func fillResult(res *RunResult, w *World, sc *Scenario) {
-	res.TapeLen = len(w.T.Rec)
-	res.Tape = w.T.Rec
+	res.TapeLen = w.T.Len()
+	res.Tape = w.T.Data()
 	res.LogHash = w.LogHash()
 	res.Violations = w.Viol
 	res.Probes = w.Probes
@@ -200,83 +202,100 @@ func hasSig(r RunResult, sig string) bool {
 	return false
 }
 
-func shrink(t *testing.T, sc *Scenario, tape []uint32, sig string, maxTries int, budget time.Duration) ([]uint32, int) {
+func shrink(t *testing.T, sc *Scenario, tape TapeData, sig string, maxTries int, budget time.Duration) (TapeData, int) {
 	start := time.Now()
 	tries := 0
-	cur := append([]uint32(nil), tape...)
-	try := func(c []uint32) bool {
-		if tries >= maxTries || time.Since(start) > budget {
+	cur := tape.Clone()
+	out := func() bool { return tries >= maxTries || time.Since(start) > budget }
+	// try replaces stream k by c and keeps the result if the same signature still fires
+	try := func(k string, c []uint32) bool {
+		if out() {
 			return false
 		}
 		tries++
-		r := runOnce(t, sc, NewTapeReplay(c), false)
+		cand := cur.Clone()
+		if len(c) == 0 {
+			delete(cand, k)
+		} else {
+			cand[k] = c
+		}
+		r := runOnce(t, sc, NewTapeReplay(cand), false)
 		if r.ToolErr == "" && hasSig(r, sig) {
-			// normalise to what was actually consumed
-			cur = append([]uint32(nil), r.Tape...)
-			// strip trailing zeros (implicit)
-			for len(cur) > 0 && cur[len(cur)-1] == 0 {
-				cur = cur[:len(cur)-1]
+			n := r.Tape // what was actually consumed, trailing zeros stripped
+			if n.Len() <= cand.Len() {
+				cur = n.Clone()
+			} else {
+				cur = cand
 			}
 			return true
 		}
 		return false
 	}
-	improved := true
-	for improved && tries < maxTries && time.Since(start) < budget {
-		improved = false
-		// truncate
-		for n := len(cur) / 2; n >= 1; n /= 2 {
-			if len(cur) > n && try(cur[:len(cur)-n]) {
-				improved = true
+	for round := 0; round < 6 && !out(); round++ {
+		before, sumBefore := cur.Len(), cur.Sum()
+		// whole streams first
+		for _, k := range cur.Keys() {
+			if _, ok := cur[k]; ok {
+				try(k, nil)
 			}
 		}
-		// delete blocks
-		for _, bs := range []int{16, 8, 4, 2, 1} {
-			for i := 0; i+bs <= len(cur); {
-				c := append(append([]uint32(nil), cur[:i]...), cur[i+bs:]...)
-				if try(c) {
-					improved = true
+		for _, k := range cur.Keys() {
+			// 1. shortest failing prefix of the stream (past-the-end choices are 0)
+			lo, hi := 0, len(cur[k])
+			for lo < hi && !out() {
+				mid := (lo + hi) / 2
+				if mid < len(cur[k]) && try(k, append([]uint32(nil), cur[k][:mid]...)) {
+					hi = len(cur[k])
+					if hi > mid {
+						hi = mid
+					}
 				} else {
-					i += bs
-				}
-				if tries >= maxTries {
-					break
+					lo = mid + 1
 				}
 			}
-		}
-		// zero blocks
-		for _, bs := range []int{8, 2, 1} {
-			for i := 0; i+bs <= len(cur); i += bs {
-				allZero := true
-				for _, v := range cur[i : i+bs] {
-					if v != 0 {
-						allZero = false
+			// 2. zero chunks, large to small (0 = simplest choice; does not shift later choices)
+			for size := (len(cur[k]) + 1) / 2; size >= 1 && !out(); size /= 2 {
+				for i := 0; i < len(cur[k]) && !out(); i += size {
+					end := i + size
+					if end > len(cur[k]) {
+						end = len(cur[k])
+					}
+					allZero := true
+					for _, v := range cur[k][i:end] {
+						if v != 0 {
+							allZero = false
+						}
+					}
+					if allZero {
+						continue
+					}
+					c := append([]uint32(nil), cur[k]...)
+					for j := i; j < end; j++ {
+						c[j] = 0
+					}
+					try(k, c)
+				}
+			}
+			// 3. delete chunks, large to small
+			for size := len(cur[k]) / 2; size >= 1 && !out(); size /= 2 {
+				for i := 0; i+size <= len(cur[k]) && !out(); {
+					c := append(append([]uint32(nil), cur[k][:i]...), cur[k][i+size:]...)
+					if !try(k, c) {
+						i += size
 					}
 				}
-				if allZero {
-					continue
-				}
-				c := append([]uint32(nil), cur...)
-				for j := i; j < i+bs; j++ {
-					c[j] = 0
-				}
-				if try(c) {
-					improved = true
-				}
-				if tries >= maxTries {
-					break
+			}
+			// 4. lower single values
+			for i := 0; i < len(cur[k]) && !out(); i++ {
+				if cur[k][i] > 1 {
+					c := append([]uint32(nil), cur[k]...)
+					c[i] = cur[k][i] / 2
+					try(k, c)
 				}
 			}
 		}
-		// lower values
-		for i := 0; i < len(cur) && tries < maxTries; i++ {
-			if cur[i] > 1 {
-				c := append([]uint32(nil), cur...)
-				c[i] = cur[i] / 2
-				if try(c) {
-					improved = true
-				}
-			}
+		if cur.Len() == before && cur.Sum() == sumBefore {
+			break
 		}
 	}
 	return cur, tries
@@ -295,7 +314,7 @@ type ReplayFile struct {
 	RunSeed   uint64   `json:"run_seed"`
 	Race      bool     `json:"race_build"`
 	StmtFiles string   `json:"stmt_files"`
-	Tape      []uint32 `json:"tape"`
+	Tape      TapeData `json:"tape"`
 	OrigLen   int      `json:"original_tape_len"`
 	Shrinks   int      `json:"shrink_executions"`
 	LogHash   string   `json:"log_hash"`
@@ -355,7 +374,7 @@ func WorkerMain(t *testing.T) {
 		Variant:   os.Getenv("VERIF_VARIANT"),
 		StmtFiles: os.Getenv("VERIF_STMT"),
 		RecheckN:  envInt("VERIF_RECHECK", 50),
-		MaxViol:   envInt("VERIF_MAXVIOL", 3),
+		MaxViol:   envInt("VERIF_MAXVIOL", 8),
 		Dump:      os.Getenv("VERIF_DUMP") != "",
 	}
 	var b float64
@@ -379,6 +398,10 @@ func WorkerMain(t *testing.T) {
 
 	if cfg.Replay != "" {
 		replayMain(t, cfg, enc)
+		return
+	}
+	if f := os.Getenv("VERIF_SHRINK"); f != "" {
+		shrinkMain(t, f, enc)
 		return
 	}
 	vars := variantsFor(cfg.Prop)
@@ -416,21 +439,9 @@ func WorkerMain(t *testing.T) {
 				}
 				seenSig[v.Signature] = true
 				nviol++
-				min, tries := shrink(t, sc, res.Tape, v.Signature, 300, 60*time.Second)
-				full := runOnce(t, sc, NewTapeReplay(min), true)
-				rf := ReplayFile{Property: cfg.Prop, Variant: sc.Name, Signature: v.Signature, VerifSeed: cfg.Seed, RunIndex: i, RunSeed: seed,
-					Race: simrt.RaceBuild, StmtFiles: cfg.StmtFiles, Tape: min, OrigLen: len(res.Tape), Shrinks: tries, LogHash: full.LogHash,
-					Toolchain: goVersion(), Schedule: full.Log, Choices: full.Labels}
-				for _, fv := range full.Violations {
-					if fv.Signature == v.Signature {
-						rf.Detail = fv.Detail
-					}
-				}
-				if !hasSig(full, v.Signature) {
-					// should not happen: shrink only accepts tapes that reproduce
-					rf.Detail = "tool: minimised tape did not reproduce; original tape kept"
-					rf.Tape = res.Tape
-				}
+				rf := ReplayFile{Property: cfg.Prop, Variant: sc.Name, Signature: v.Signature, Detail: v.Detail, VerifSeed: cfg.Seed, RunIndex: i, RunSeed: seed,
+					Race: simrt.RaceBuild, StmtFiles: cfg.StmtFiles, Tape: res.Tape.Clone(), OrigLen: res.Tape.Len(), LogHash: res.LogHash,
+					Toolchain: goVersion()}
 				enc.Encode(map[string]any{"replay": rf})
 			}
 		}
@@ -485,4 +496,39 @@ func replayMain(t *testing.T, cfg workerCfg, enc *json.Encoder) {
 			fmt.Fprintln(os.Stderr, l)
 		}
 	}
+}
+
+// shrinkMain minimises the tape of a candidate replay file and emits the final replay file
+// (with decoded schedule) as a "replay" line.
+func shrinkMain(t *testing.T, path string, enc *json.Encoder) {
+	data, err := os.ReadFile(path)
+	if err != nil {
+		t.Fatal(err)
+	}
+	var rf ReplayFile
+	if err := json.Unmarshal(data, &rf); err != nil {
+		t.Fatal(err)
+	}
+	sc := scenarioByName(rf.Property, rf.Variant)
+	if sc == nil {
+		t.Fatalf("unknown variant %s", rf.Variant)
+	}
+	budget := 90 * time.Second
+	if v := envInt("VERIF_SHRINK_S", 0); v > 0 {
+		budget = time.Duration(v) * time.Second
+	}
+	min, tries := shrink(t, sc, rf.Tape, rf.Signature, 4000, budget)
+	full := runOnce(t, sc, NewTapeReplay(min), true)
+	if !hasSig(full, rf.Signature) {
+		// keep the original tape: it is the one that was observed to fail
+		full = runOnce(t, sc, NewTapeReplay(rf.Tape), true)
+		min = rf.Tape
+	}
+	rf.Tape, rf.Shrinks, rf.LogHash, rf.Schedule, rf.Choices = min, tries, full.LogHash, full.Log, full.Labels
+	for _, fv := range full.Violations {
+		if fv.Signature == rf.Signature {
+			rf.Detail = fv.Detail
+		}
+	}
+	enc.Encode(map[string]any{"replay": rf, "reproduced": hasSig(full, rf.Signature)})
 }
